@@ -433,7 +433,7 @@ Lemma op_step_spec : forall h m ids msgs st o st' calls,
   let msgs' := msgs ++ oop_msgs [o] in
   op_inv ids msgs' st' /\ told_ok (spec_composite ids msgs') calls /\ calls_ht_ok (timer_ok ids msgs') calls.
 Proof.
-  intros h m ids msgs st o st' calls [Hreg Hb] H msgs'. destruct o as [s id key timers|s p]; cbn [op_step oop_msgs] in *.
+  intros h m ids msgs st o st' calls [Hreg Hb] H msgs'. destruct o as [s id key timers|s p|s]; cbn [op_step oop_msgs] in *.
   - subst msgs'. rewrite app_nil_r.
     destruct (add_event_spec _ _ _ _ _ _ (timer_ok ids msgs) H Hb) as [[Hu Hw] [Ht [Hb' Hc]]]; [intros ? ? Heq; discriminate|].
     split; [split; [eapply reg_inv_same; eassumption|exact Hb']|].
@@ -448,6 +448,21 @@ Proof.
     + cbn [o_batch]. intros k t Hin. apply timer_ok_app. eapply Hb. exact Hin.
     + intros t Hle. exists (length (msgs ++ [(s, as_time p)])). split; [rewrite app_length; cbn; lia|].
       rewrite firstn_all. destruct Hnote as [_ Hwm]. rewrite <- Hwm. exact Hle.
+  - subst msgs'. rewrite app_nil_r.
+    destruct (process_batch_spec _ _ _ _ (timer_ok ids msgs) H Hb) as [[Hu Hw] [Ht [Hb' Hc]]].
+    split; [split; [eapply reg_inv_same; eassumption|exact Hb']|].
+    split; [|exact Hc]. destruct Hreg as [_ Hwm]. rewrite <- Hwm. exact Ht.
+Qed.
+
+(* SourceComplete leaves the upstream table and the cached composite untouched: a finished runner's last
+   report keeps counting in the minimum *)
+Lemma source_complete_keeps_table : forall h m st s,
+  r_ups (o_reg (fst (op_step h m st (OComplete s)))) = r_ups (o_reg st) /\
+  r_wm (o_reg (fst (op_step h m st (OComplete s)))) = r_wm (o_reg st).
+Proof.
+  intros h m st s. cbn [op_step]. destruct (process_batch h st) as [st' calls] eqn:E. cbn [fst].
+  destruct (process_batch_spec h st st' calls (fun _ => True) E) as [[Hu Hw] _]; [intros ? ? ?; exact I|].
+  split; assumption.
 Qed.
 
 Lemma op_inv_new : forall ids, op_inv ids [] (op_new ids).
